@@ -77,18 +77,17 @@ const (
 
 // next gets the next rune from the input.
 func (l *lexer) next() (r rune) {
-	if l.pos >= len(l.input) {
+	for !utf8.FullRuneInString(l.input[l.pos:]) {
+		// the window is used up, or ends inside a multi-byte char
+		// which continues in the next chunk: get more input
 		s, ok := <-l.inputs
 		if !ok {
-			if l.pos == l.start {
-				l.width = 0
-				return eof
-			}
-			// continue with leftover + s
+			break
 		}
-		l.input = l.input[l.start:l.pos] + s
+		l.lpUpd(s, l.posShift+len(l.input))
+		// continue with leftover + s
+		l.input = l.input[l.start:] + s
 		l.posShift += l.start
-		l.lpUpd(s, l.posShift+l.pos-l.start)
 		l.pos -= l.start
 		l.start = 0
 	}
